@@ -18,6 +18,8 @@ CHECKS = {
     'C03': ('model_checking', 'For every operand structure inside the bound (orders 1..4/5, sizes<=4, ranks<=3, broadcasting alignments, scalar kinds, dtypes) the core entries and scalar operands are '
             'solver variables and z3 shows that no values make the TT result differ from the dense expression (plus rank/dtype clauses). Exhaustive over values, bounded over structure.', '4 C03'),
     'C04': ('model_checking', 'Same scheme for TT-matrix products, transpose, +,-,*, scalar ops and operator @ dense with 0..3 batch dims; row/column/inner sizes distinct; z3 decides value equality for all core values per structure.', '4 C04'),
+    'C05': ('model_checking', 'Inductive step at the shape level: pre-state = 1..3 TT objects built by the constructor from cores with symbolic mode sizes and ranks (every well-formed state within the bound); '
+            'one public operation of a 70+ entry catalogue; z3 decides every clause of the structural invariant on all operands and results, for all sizes in the bound at once. One step covers histories of any length.', '4 C05'),
     'C06': ('model_checking', 'For each operation of a 50+ entry catalogue and each operand position the operand is snapshotted as terms; z3 decides whether any input values make the operand differ afterwards; '
             'list/tensor identity and metadata compared structurally; two-step histories with set_core/reduce_dims after view-producing operations.', '4 C06'),
     'C07': ('model_checking', 'norm (Gram chain and QR sweep), dot (all mode subsets), sum (all subsets, TT and TTM), bilinear_form against dense reductions; conjugation clauses decided with symbolic complex entries.', '4 C07'),
